@@ -16,6 +16,23 @@ static bool to_units_d(const GraphSpec &, int v, ll &u) { u = v; return true; }
 static GraphSpec gen_sched_graph(Rng &r, int max_n, bool int_only) {
     GenOpts o; o.max_n = max_n; o.int_only = int_only; o.tie_bias = 0.55; o.allow_degenerate = true;
     GraphSpec s;
+    if (max_n >= 22 && r.chance(0.05)) {
+        // two blocks: a chain of light triangles bridged to a heavy dense block.  The candidate collections have well over a
+        // thousand entries (so ranges with a large grainsize are still split), sorted by weight the odd candidates of a support
+        // that lives in the light block sit at the very beginning, and whole sub-ranges of the heavy tail hold no odd candidate
+        int tcount = (int) r.range(3, 6); Topo t; std::vector<ll> wt;
+        auto E = [&](int a_, int b_, ll w_) { t.push_back({a_, b_}); wt.push_back(w_); };
+        int n = 1; for (int q = 0; q < tcount; q++) { int a_ = n - 1, b_ = n, c_ = n + 1; E(a_, b_, 1); E(b_, c_, 1); E(a_, c_, 1); n += 2; }
+        int base = n; int nb = (int) r.range(24, 30); n += nb; E(base - 1, base, 1);
+        std::set<std::pair<int, int>> used;
+        for (int v = 1; v < nb; v++) { int u = (int) r.below(v); used.insert({u, v}); E(base + u, base + v, r.range(100, 199)); }
+        int target = (int) r.range(110, 140);
+        while ((int) used.size() < target) { int u = (int) r.below(nb), v = (int) r.below(nb); if (u == v) continue; if (u > v) std::swap(u, v); if (!used.insert({u, v}).second) continue; E(base + u, base + v, r.range(100, 199)); }
+        std::vector<int> perm(n); std::iota(perm.begin(), perm.end(), 0); r.shuffle(perm);
+        s.n = n; for (size_t q = 0; q < t.size(); q++) s.edges.push_back({perm[t[q].first], perm[t[q].second], wt[q]});
+        r.shuffle(s.edges); s.family = "light_triangles_plus_heavy_block"; s.wshift = 0; s.wmode = 0; s.tie_rich = false;
+        return s;
+    }
     if (r.chance(0.2)) { // dense core (the all-vertices branch |S_k| >= n runs) plus pendant / isolated vertices at random indices
         Topo t; int core = (int) r.range(6, 12); topo_er(r, t, core, 0.6 + 0.4 * r.real()); int n = core; int extra = (int) r.range(1, 3);
         for (int q = 0; q < extra; q++) { if (r.chance(0.7)) add_e(t, (int) r.below(core), n); n++; }
